@@ -60,3 +60,98 @@ def snapshot(at):
         at.get_pbc().tobytes(),
         at.get_atomic_numbers().tobytes(),
     )
+
+
+# ---------------------------------------------------------------- F2: deviation-bounded defective crystals
+def f2_bases():
+    """Base structures (name, Atoms, adatom sites)."""
+    from ase.build import bulk, fcc100, graphene, fcc111
+    from ase import Atoms as A
+
+    out = []
+    b = bulk("Cu", "fcc", a=3.6, cubic=True).repeat((2, 2, 2))
+    out.append(("fcc222", b, []))
+    s = fcc100("Cu", size=(3, 3, 3), a=3.6, vacuum=6.0)
+    s.set_pbc([True, True, False])
+    top = s.positions[:, 2].max()
+    ads = [s.positions[np.argmax(s.positions[:, 2])] + [0, 0, 1.9], np.array([s.cell[0, 0] / 6 * 1, s.cell[1, 1] / 6 * 1, top + 1.5])]
+    out.append(("fcc100slab.TTF", s, ads))
+    s2 = s.copy()
+    s2.set_pbc(True)
+    out.append(("fcc100slab.TTT", s2, ads))
+    g = graphene(formula="C2", a=2.46, size=(3, 3, 1), vacuum=6.0)
+    g.set_pbc([True, True, False])
+    out.append(("graphene33", g, [g.positions[0] + [0, 0, 1.5]]))
+    sc = bulk("Po", "sc", a=3.0).repeat((3, 3, 2))
+    sc.set_pbc(False)
+    sc.center(vacuum=5.0)
+    out.append(("sc332.finite", sc, [sc.positions[np.argmax(sc.positions[:, 2])] + [0, 0, 3.0]]))
+    rs = bulk("NaCl", "rocksalt", a=5.64, cubic=True).repeat((2, 2, 1))
+    out.append(("rocksalt221", rs, []))
+    return out
+
+
+def stack_base():
+    """Two commensurate fcc(100) slabs of different elements (3+3 layers, 3x3)."""
+    from ase.build import fcc100
+
+    a = 3.9
+    lower = fcc100("Ag", size=(3, 3, 3), a=a, vacuum=0.0)
+    upper = fcc100("Pd", size=(3, 3, 3), a=a, vacuum=0.0)
+    dz = a / 2
+    upper.positions[:, 2] += lower.positions[:, 2].max() + dz - upper.positions[:, 2].min()
+    # keep the fcc stacking registry across the interface
+    upper.positions[:, :2] += (lower.positions[9, :2] - lower.positions[0, :2]) if False else 0
+    st = lower + upper
+    st.center(vacuum=6.0, axis=2)
+    st.set_pbc([True, True, False])
+    return st
+
+
+def deviations(base, ads, k_subst=47, kinds=("vac", "sub", "ads", "disp")):
+    """All single deviations of a base structure: (label, Atoms)."""
+    n = len(base)
+    out = []
+    if "vac" in kinds:
+        for i in range(n):
+            a = base.copy()
+            del a[i]
+            out.append(("vac%d" % i, a))
+    if "sub" in kinds:
+        for i in range(n):
+            a = base.copy()
+            z = a.get_atomic_numbers()
+            z[i] = k_subst
+            a.set_atomic_numbers(z)
+            out.append(("sub%d" % i, a))
+    if "ads" in kinds:
+        from ase import Atom
+
+        for j, p in enumerate(ads):
+            a = base.copy()
+            a.append(Atom("O", position=p))
+            out.append(("ads%d" % j, a))
+    if "disp" in kinds:
+        for i in range(n):
+            for ax in range(3):
+                for sg in (0.3, -0.3):
+                    a = base.copy()
+                    a.positions[i, ax] += sg
+                    out.append(("disp%d%s%s" % (i, "xyz"[ax], "+" if sg > 0 else "-"), a))
+    return out
+
+
+def molecules():
+    """F3: molecules in a box under several pbc masks."""
+    from ase.build import molecule
+
+    out = []
+    for name in ("H2O", "CO2", "CH4", "C6H6"):
+        for box in (8.0, 12.0):
+            for pbc in ((True, True, True), (True, False, True), (False, False, False)):
+                m = molecule(name)
+                m.set_cell(np.eye(3) * box)
+                m.center()
+                m.set_pbc(pbc)
+                out.append(("%s.box%g.%s" % (name, box, "".join("T" if b else "F" for b in pbc)), m))
+    return out
